@@ -162,7 +162,7 @@ impl HarnessSource {
                 let raw = || MaybeCheckedTransaction::Transaction(p.tx.clone());
                 // (height to check at, parameters to check under, version label)
                 let how: Option<(BlockHeight, &ConsensusParameters, u32)> = match p.checked {
-                    CheckedMode::Raw => None,
+                    CheckedMode::Raw | CheckedMode::FullyChecked => None,
                     CheckedMode::Checked => Some((height, params, params_version)),
                     CheckedMode::CheckedOtherVersion => Some((height, params, params_version.wrapping_add(7))),
                     // what a pool does that checked the transaction one block earlier
@@ -177,12 +177,20 @@ impl HarnessSource {
                         None => Some((height, params, params_version)),
                     },
                 };
-                let tx = match how {
+                let tx = if p.checked == CheckedMode::FullyChecked {
+                    // basic checks + signatures + predicates, all check bits set
+                    match p.tx.clone().into_checked(height, params) {
+                        Ok(c) => MaybeCheckedTransaction::CheckedTransaction(c.into(), params_version),
+                        Err(_) => raw(),
+                    }
+                } else {
+                match how {
                     None => raw(),
                     Some((h, prm, v)) => match p.tx.clone().into_checked_basic(h, prm) {
                         Ok(c) => MaybeCheckedTransaction::CheckedTransaction(c.into(), v),
                         Err(_) => raw(),
                     },
+                }
                 };
                 let id = tx.id(&chain_id);
                 Pending {
